@@ -272,7 +272,7 @@ def rule_g(repo, chk):
         ok = any(s.endswith('.get_signatures()') for s in srcs) and any(s.endswith('.get_param_names()') for s in srcs)
         chk.ob('C05.g', ok, l, 'the walk goes over value.get_signatures() and signature.get_param_names()', str(srcs))
         cmp_ = [x for x in ast.walk(l) if isinstance(x, ast.Compare) and 'string_name' in norm(x)]
-        ok = len(cmp_) == 1 and isinstance(cmp_[0].ops[0], ast.Eq) and {norm(cmp_[0].left), norm(cmp_[0].comparators[0])} == {'param_name.string_name', 'name.value'}
+        ok = len(cmp_) == 1 and isinstance(cmp_[0].ops[0], (ast.Eq, ast.NotEq)) and {norm(cmp_[0].left), norm(cmp_[0].comparators[0])} == {'param_name.string_name', 'name.value'}
         chk.ob('C05.g', ok, l, 'a parameter is selected by equality of its string_name with the keyword\'s text', str([norm(c) for c in cmp_]))
 
 
